@@ -787,7 +787,7 @@ META = {
                   "unformat_identifiers": "one name symbolic (length 1), the other from {a, A, ., closing quote}; sqlite, mysql, mssql grammars"},
         "thorough": {"quote() decision": "symbolic str, length 1..3 (sqlite, postgresql, mssql, oracle), 1..2 (default, mysql, mariadb)", "forced quoting / escape": "length 0..4",
                      "keywords": "as quick, length 1..24", "quoted_name flags": "as quick", "dotted names": "as quick",
-                     "unformat_identifiers": "one name symbolic (length 1) and the other from a pool of %d (4 grammars); one symbolic of length 2 and the other from {a, A, closing quote} (3 grammars)" % len(UNF_POOL)},
+                     "unformat_identifiers": "one name symbolic (length 1) and the other from a pool of %d (4 grammars); one symbolic of length 2 and the other from {A, closing quote} (3 grammars)" % len(UNF_POOL)},
     },
     "outside": ["the empty identifier (no backend accepts a zero-length name; _requires_quotes('') raises IndexError)",
                 "NUL characters (backends reject them)",
@@ -815,7 +815,8 @@ def harnesses(tier: str) -> List[Harness]:
         hs.append(Harness("quote", h_quote, [dict(dn=d, n=n, cls=",".join(cv)) for n in range(1, nmax + 1)
                                               for cv in itertools.product(CLASSES, repeat=n)],
                           budget_s=60 if q else 400))
-    hs = [Harness("quote", h_quote, [sl for h in hs for sl in h.slices], budget_s=60 if q else 400)]
+    hs = [Harness("quote", h_quote, [sl for h in hs for sl in h.slices], budget_s=60 if q else 900,
+                  per_path_timeout=10 if q else 30)]
     hs.append(Harness("escape", h_escape,
                       [dict(dn=d, n=n) for d in DIALECTS for n in range(0, (3 if q else 4) + 1)],
                       budget_s=30 if q else 200))
@@ -836,7 +837,7 @@ def harnesses(tier: str) -> List[Harness]:
             unf.append(dict(dn=d, la=1, lb=0, fixed="b:%d" % k))
         if not q and d != "postgresql":
             for k in small:
-                if UNF_POOL[k] != ".":
+                if UNF_POOL[k] in ("A", close):
                     unf.append(dict(dn=d, la=0, lb=2, fixed="a:%d" % k))
                     unf.append(dict(dn=d, la=2, lb=0, fixed="b:%d" % k))
     hs.append(Harness("unformat", h_unformat, unf, budget_s=90 if q else 900, per_path_timeout=30))
